@@ -181,6 +181,7 @@ def case_st(tier, pairs=None, cfg=True, max_edits=None, min_edits=1, scopes=Fals
             "cfi": st.just(bool(cfi)),
             "multi_iv": (st.booleans() if ivs else st.just(False)),
             "eorder": st.one_of(st.just(0), st.integers(0, 255)),
+            "isyms": st.sampled_from([False, False, True]),
             "edits": st.lists((st.one_of(edit_st(isa, use_cfg, pdata=pdata), edit_st(isa, use_cfg, pdata=pdata), scope_edit_st(isa))
                                if scopes else _with_chains(edit_st(isa, use_cfg, cfi=cfi, pdata=pdata, palign=palign))),
                               min_size=min_edits, max_size=ne).map(_flatten),
@@ -906,6 +907,12 @@ def build(case: Case, *, cfi=None) -> Built:
         out.symbols[n] = gtirb.Symbol(name=n, payload=p, module=m)
     for n, (g, binding) in c.label_block.items():
         out.symbols[n] = gtirb.Symbol(name=n, payload=out.blocks[g], at_end=(binding == "end"), module=m)
+    # symbols that label nothing: an absolute value and a symbol without any payload (both legal GTIRB; every
+    # walk over module.symbols / Symbol.referent has to cope with them)
+    out.value_symbols = {}
+    if c.spec.get("isyms"):
+        out.value_symbols["absval0"] = (gtirb.Symbol(name="absval0", payload=0x4242, module=m), 0x4242)
+        out.value_symbols["nopayload0"] = (gtirb.Symbol(name="nopayload0", module=m), None)
     sizes = {}
     for bi, off, u in sym_exprs:
         attrs = set()
